@@ -3,7 +3,7 @@ use std::fmt;
 use crate::compiler::codes;
 use crate::compiler::state::{TypeInfo, TypeState};
 use crate::compiler::{
-    Context, Expression, TypeDef,
+    Context, Expression, ExpressionError, TypeDef,
     expression::{self, Expr, Resolved},
     parser::{Node, ast},
     value::{ValueError, VrlValueArithmetic},
@@ -128,7 +128,15 @@ impl Expression for Op {
         use ast::Opcode::{Add, And, Div, Eq, Err, Ge, Gt, Le, Lt, Merge, Mul, Ne, Or, Sub};
 
         match self.opcode {
-            Err => return self.lhs.resolve(ctx).or_else(|_| self.rhs.resolve(ctx)),
+            Err => {
+                return match self.lhs.resolve(ctx) {
+                    // `abort` and `return` are control flow, not errors: they can't be coalesced.
+                    Result::Err(
+                        err @ (ExpressionError::Abort { .. } | ExpressionError::Return { .. }),
+                    ) => Result::Err(err),
+                    lhs => lhs.or_else(|_| self.rhs.resolve(ctx)),
+                };
+            }
             Or => {
                 return self
                     .lhs
